@@ -47,6 +47,7 @@ PROPS = {
     ),
     'C04': dict(
         level='proof',
+        technique='contract-based deductive verification: VCs generated from the real Python source by symbolic execution against sidecar contracts, discharged by z3/cvc5; whole-stream clauses as a loop invariant with ghost history on the real Tokenizer.feed; four Sublist axioms discharged by Lean 4 + Mathlib',
         text='representation invariant WF of the tokenizer and a relational step specification are proved for the real '
              'Tokenizer.feed_byte from an ARBITRARY well-formed state and an arbitrary byte (out-of-range bytes raise ValueError and '
              'change nothing); Tokenizer.feed / Parser.feed are proved for byte strings of any length by loop invariants (every '
@@ -84,7 +85,9 @@ PROPS = {
              'the same steps on the same state. Retrieval: get_message returns the oldest queued item and removes exactly it, or '
              'None exactly when nothing is pending; pending() is the queue length; iteration yields the queue in order '
              '(invariant yielded ++ remaining == queue) - all for queues of ANY length. ParserQueue: put_bytes/poll/iterpoll proved '
-             'against an assumed FIFO contract of queue.Queue.',
+             'against an assumed FIFO contract of queue.Queue. Parser.feed / feed_byte are proved to hand exactly their bytes, in order, to the '
+             'parser\'s own tokenizer for data of any kind and length (one-element chunks included) and to queue nothing themselves; '
+             'Tokenizer.__iter__, through which _decode takes the tokens out, is FIFO over a queue of any length.',
         note='trusted: pyvc, z3/cvc5; queue.Queue assumed FIFO; queue items are represented by integers because retrieval only '
              'moves them (any inspection would surface as a failing obligation); the step from "same sequence of steps" to '
              '"same messages" is the determinism of the proved step function',
@@ -104,6 +107,7 @@ PROPS = {
     ),
     'C06': dict(
         level='proof',
+        technique='contract-based deductive verification: VCs generated from the real Python source by symbolic execution against sidecar contracts, discharged by z3/cvc5; the induction over the message list (concatenation corollary) discharged by Lean 4 + Mathlib from the fold and resynchronisation contracts',
         text='resynchronisation is proved on the real code from ANY well-formed parser state (that is: after any prefix): '
              'feeding the encoding of a valid non-sysex message of each of the 17 types queues exactly that message and leaves '
              'no partial message; for sysex, Tokenizer.feed over F0 ++ y ++ F7 with y any mix of data and real-time bytes of any '
@@ -132,6 +136,7 @@ PROPS = {
     ),
     'C09': dict(
         level='proof',
+        technique='contract-based deductive verification: VCs generated from the real Python source by symbolic execution against sidecar contracts, discharged by z3/cvc5; the bit trick `v & (v - 1)` through a theory lemma discharged as a pure bit-vector query (z3) on every run',
         text='per meta type: the constructor accepts exactly the documented domain (ints fully symbolic over all integers, '
              'so every range limit is inside the proof; 30 keys, 4 frame rates and all 256 power-of-two denominators enumerated '
              'exhaustively), bytes() == FF type canonical-VLQ(len) payload with the SMF payload layout and every item a byte, and '
